@@ -161,9 +161,14 @@ func (b *Bytes) store(addr model.Addr, bs []byte) int {
 		b.blocks[i+1] = b.blocks[i]
 	}
 
+	// The block has to own its bytes as they are modified by later stores.
+	// Bytes in bs belong to the constant stored which must stay immutable.
+	bytesCopy := make([]byte, end-addr)
+	copy(bytesCopy, bs)
+
 	b.blocks[idx] = byteBlock{
 		begin: addr,
-		bytes: bs[:end-addr],
+		bytes: bytesCopy,
 	}
 
 	return int(end - addr)
